@@ -291,6 +291,7 @@ def run_semantics(case):
     warnings.filterwarnings("ignore")
     np.seterr(all="ignore")
     sh = case.get("shard")
+    prev = None
     for k, s in enumerate(exprs(case["depth"], full=bool(case.get("full")))):
         if sh and k % sh[1] != sh[0]:
             continue
@@ -302,6 +303,10 @@ def run_semantics(case):
             if len(vs) > 3:
                 break
             continue
+        # the dependency list handed out for the PREVIOUS expression must still say what it said (the caller keeps it)
+        if prev is not None and list(prev[1]) != prev[2]:
+            vs.append(V("dependencies-changed-by-later-parse", f"the dependency list reported for {prev[0]!r} was {prev[2]} and reads {list(prev[1])} after {s!r} was parsed", dict(expr=s)))
+        prev = (s, deps, list(deps))
         tree = ast.parse(s.replace(":", "___"), mode="eval")
         free = {nd.id for nd in ast.walk(tree) if isinstance(nd, ast.Name)} - set(FUNCS1 + FUNCS2)
         if set(deps) != free:
